@@ -49,12 +49,19 @@ where
         if version.as_str() == FSM_READER_VERSION {
             fsm.name = self.reader.read_string();
             fsm.datamodel = self.reader.read_string();
-            fsm.binding = BindingType::from_ordinal(self.reader.read_u8());
+            let binding_ordinal = self.reader.read_u8();
+            if self.reader.has_error() {
+                return Err("Can't read".to_string());
+            }
+            fsm.binding = BindingType::from_ordinal(binding_ordinal);
             fsm.pseudo_root = self.read_state_id();
             fsm.script = self.read_executable_content_id();
 
             let states_len = self.reader.read_usize();
             for _idx in 0..states_len {
+                if self.reader.has_error() {
+                    break;
+                }
                 let mut state = State::new("");
                 self.read_state(&mut state);
                 fsm.states.push(state);
@@ -62,19 +69,33 @@ where
 
             let transitions_len = self.reader.read_usize();
             for _idx in 0..transitions_len {
+                if self.reader.has_error() {
+                    break;
+                }
                 let transition = self.read_transition();
                 fsm.transitions.insert(transition.id, transition);
             }
 
             let executable_content_len = self.reader.read_usize();
             for _idx in 0..executable_content_len {
+                if self.reader.has_error() {
+                    break;
+                }
                 let content_id = self.read_executable_content_id();
                 let content_len = self.reader.read_usize();
                 let mut content = Vec::new();
                 for _idx2 in 0..content_len {
+                    if self.reader.has_error() {
+                        break;
+                    }
                     content.push(self.read_executable_content());
                 }
                 fsm.executableContent.insert(content_id, content);
+            }
+
+            // An image that ends too early (or is otherwise unreadable) is no FSM.
+            if self.reader.has_error() {
+                return Err("Can't read: the data is incomplete or damaged".to_string());
             }
 
             let end = SystemTime::now().duration_since(UNIX_EPOCH).unwrap();
